@@ -165,7 +165,8 @@ def rule_randtoken(ctx):
             for ev in on_path(w.events, end):
                 if ev.loops != end.loops:
                     continue
-                if ev.kind == "call" and ev.callee is not None and ev.callee.key in toks:
+                if ev.kind == "call" and ev.callee is not None and ev.callee.key in toks and not getattr(ev, "inlined", False):
+                    # (a helper walked inline is judged by the token calls inside it, which are on this path too)
                     k, tp, pos = toks[ev.callee.key]
                     am = dict(zip(k.params, ev.args))
                     a = am.get(tp)
@@ -181,7 +182,8 @@ def rule_randtoken(ctx):
                     cur = p.lin
                 elif ev.kind == "loopstart":
                     lp2 = ev.loop
-                    inner = [x for x in w.events if x.kind == "call" and x.callee is not None and x.callee.key in toks and lp2 in x.loops]
+                    inner = [x for x in w.events if x.kind == "call" and x.callee is not None and x.callee.key in toks and lp2 in x.loops
+                             and not getattr(x, "inlined", False)]
                     if not inner:
                         continue          # the loop does not touch the pointer: it is the same after the loop
                     tv = get_env_tok(ev.envsnap)
@@ -400,11 +402,19 @@ def rule_expo(ctx):
     # the draw is compared as  rand < base**(-c')  (increment iff below)
     br = [e for e in w1.events if e.kind == "branch" and any(t == pw1[0] for t in _cond_terms(e.cond))]
     res = []
+    incs = [e for e in w1.events if e.kind == "assign" and e.name == lc.params[0] and isinstance(getattr(e, "old", None), Num) and isinstance(e.value, Num)
+            and e.value.lin - e.old.lin == Lin.const(1)]
     for b in br:
         c = b.cond
+        # `if draw < p: step` -- or the same decision spelled from the other side: `if not (draw < p): <no step>` / `if p <= draw: <no step>`,
+        # i.e. the test is  p - draw <= 0  and the step sits on its FALSE arm
         okc = c[0] == "flt" and len(c[1].c) == 2 and c[1].c.get(pw1[0]) == -1 and c[1].k == 0
-        rt = [t for t in c[1].c if t != pw1[0]]
-        okd = okc and rt and rt[0][0] == "call" and rt[0][1].startswith("_rand")
+        want_pol = True
+        if not okc and c[0] in ("fle", "le") and len(c[1].c) == 2 and c[1].c.get(pw1[0]) == 1 and c[1].k == 0:
+            okc, want_pol = True, False
+        rt = [t for t in c[1].c if t != pw1[0]] if okc else []
+        pols = {pol for e in incs for (nd, pol, _) in e.path if nd is b.node}
+        okd = okc and rt and rt[0][0] == "call" and rt[0][1].startswith("_rand") and pols == {want_pol}
         res.append((bool(okd), "increment iff draw < base**(-c')" if okd else "the increment test is not `draw < base ** (-c')`: %s" % show_cond(c), fact_strs(b)))
     agg(ctx, "expo", lc, br[0].node if br else lc.node, "if rand < base ** (-cprime)", "a step is taken exactly when a fresh draw is below the increment probability", res)
     # decoder shape: (base**c' - 1)/(base - 1) + num_reserved ; deterministic range counter <= num_reserved -> counter
